@@ -41,7 +41,7 @@ func (r rawBody) MarshalRestLi(w restlicodec.Writer) error { w.WriteRawBytes([]b
 // parsed view of a request as the server sees it
 type view struct {
 	method, path, rawQuery, requestURI, contentType, restliMethod, version, override string
-	body                                                                          []byte
+	body                                                                             []byte
 }
 
 func viewOf(req *http.Request) (view, error) {
@@ -273,12 +273,12 @@ func checkClientLevel(c tcase) (kind, detail string) {
 
 type stubPath struct{}
 
-func (s *stubPath) NewInstance() *stubPath                                      { return &stubPath{} }
+func (s *stubPath) NewInstance() *stubPath                                    { return &stubPath{} }
 func (s *stubPath) UnmarshalResourcePath(segments []restlicodec.Reader) error { return nil }
 
 type stubParams struct{}
 
-func (p *stubParams) NewInstance() *stubParams                                      { return &stubParams{} }
+func (p *stubParams) NewInstance() *stubParams                                     { return &stubParams{} }
 func (p *stubParams) DecodeQueryParams(reader restlicodec.QueryParamsReader) error { return nil }
 
 type stubEntity struct{}
@@ -317,7 +317,9 @@ func stubServer() http.Handler {
 
 func malformed() []tcase {
 	const b = "BOUND"
-	part := func(ct, content string) string { return "--" + b + "\r\nContent-Type: " + ct + "\r\n\r\n" + content + "\r\n" }
+	part := func(ct, content string) string {
+		return "--" + b + "\r\nContent-Type: " + ct + "\r\n\r\n" + content + "\r\n"
+	}
 	mp := func(parts ...string) string { return strings.Join(parts, "") + "--" + b + "--\r\n" }
 	req := func(target, verbOverride, ct, body string) string {
 		h := "POST " + target + " HTTP/1.1\r\nHost: h\r\nX-RestLi-Protocol-Version: 2.0.0\r\n"
@@ -368,7 +370,9 @@ func checkMalformed(c tcase, h http.Handler) (kind, detail string) {
 
 func queries() (urlSafe, rawOnly []string) {
 	urlSafe = []string{"", "a", "a=b", "q=x&ids=List(1,2)", "p=%28%29%2C%3A%27", "p=%25", "p=a%20b", "p=a+b", "x=%0D%0A", "x=%26%3D", "p=--BOUND", "p=%C3%A9",
-		"ids=List((a:1,b:2),(a:3,b:4))&fields=a,b", "p=" + strings.Repeat("x", 300), "p=" + strings.Repeat("%2F", 100)}
+		"ids=List((a:1,b:2),(a:3,b:4))&fields=a,b", "p=" + strings.Repeat("x", 300), "p=" + strings.Repeat("%2F", 100),
+		// longer than the buffers of the multipart reader (4 KB) and of the HTTP parser
+		"p=" + strings.Repeat("y", 3990), "p=" + strings.Repeat("z", 4200), "ids=List(" + strings.Repeat("1234567,", 9000) + "1)"}
 	rawOnly = []string{"a=b\r\nc=d", "a=b\nInjected: header", "x=--BOUND\r\n--BOUND--", "a=b&&c==d", "%", "%zz", "a b", "é", "\x00"}
 	return
 }
@@ -504,6 +508,63 @@ func main() {
 			sm.Class("fail:" + kind)
 		} else {
 			sm.Class("ok")
+		}
+	}
+	// well-formed tunnelled requests through the whole server, framed with Content-Length and chunked: the stub
+	// resource is reached exactly as by the plain request
+	ss := rep.S("server-framing")
+	ss.Bounds = "verbs {GET, PUT, DELETE} x 3 queries x {Content-Length, chunked} framing of the tunnelled request, fed raw to a server with stub resource code: same status and resource invocation as the plain request"
+	for _, verb := range []string{"GET", "PUT", "DELETE"} {
+		for _, q := range []string{"a=b", "p=%28x%29&z=1", "p=" + strings.Repeat("x", 5000)} {
+			body := ""
+			if verb == "PUT" {
+				body = `{"k":"v"}`
+			}
+			head := "Host: h\r\nX-RestLi-Protocol-Version: 2.0.0\r\nX-RestLi-Method: " + map[string]string{"GET": "get", "PUT": "update", "DELETE": "delete"}[verb] + "\r\n"
+			plain := verb + " /r/k?" + q + " HTTP/1.1\r\n" + head
+			if body != "" {
+				plain += fmt.Sprintf("Content-Type: application/json\r\nContent-Length: %d\r\n\r\n%s", len(body), body)
+			} else {
+				plain += "\r\n"
+			}
+			ct, env := "application/x-www-form-urlencoded", q
+			if body != "" {
+				ct = "multipart/mixed; boundary=BOUND"
+				env = "--BOUND\r\nContent-Type: application/x-www-form-urlencoded\r\n\r\n" + q + "\r\n--BOUND\r\nContent-Type: application/json\r\n\r\n" + body + "\r\n--BOUND--\r\n"
+			}
+			thead := "POST /r/k HTTP/1.1\r\n" + head + "X-HTTP-Method-Override: " + verb + "\r\nContent-Type: " + ct + "\r\n"
+			framings := map[string]string{
+				"content-length": thead + fmt.Sprintf("Content-Length: %d\r\n\r\n%s", len(env), env),
+				"chunked":        thead + "Transfer-Encoding: chunked\r\n\r\n" + fmt.Sprintf("%x\r\n%s\r\n0\r\n\r\n", len(env), env),
+			}
+			hits = 0
+			px, perr := wire.DoRaw(h, []byte(plain))
+			if perr != nil || px == nil || px.Response == nil || hits != 1 {
+				report.Internal("the plain request %q does not reach the stub (%v, hits %d)", plain[:60], perr, hits)
+			}
+			for fname, raw := range framings {
+				hits = 0
+				x, err := wire.DoRaw(h, []byte(raw))
+				ss.Evaluations++
+				ss.Transitions++
+				ss.Traces++
+				ss.States++
+				c := tcase{Gen: a.Gen, Part: "malformed", Name: "framing-" + fname, Raw: raw}
+				switch {
+				case x != nil && x.Panic != nil:
+					rep.Fail(fmt.Sprintf("%s tunnel framing %s panic verb=%s", a.Gen, fname, verb), fmt.Sprint(x.Panic), c)
+					ss.Class("fail")
+				case err != nil || x == nil || x.Response == nil:
+					rep.Fail(fmt.Sprintf("%s tunnel framing %s no-response verb=%s", a.Gen, fname, verb), fmt.Sprint(err), c)
+					ss.Class("fail")
+				case x.Response.StatusCode != px.Response.StatusCode || hits != 1:
+					rep.Fail(fmt.Sprintf("%s tunnel framing %s not-transparent verb=%s", a.Gen, fname, verb),
+						fmt.Sprintf("tunnelled %s with a query of %d bytes, %s framing: status %d, resource code invoked %d time(s) (body %.200q); the plain request: status %d, invoked once", verb, len(q), fname, x.Response.StatusCode, hits, x.Body, px.Response.StatusCode), c)
+					ss.Class("fail")
+				default:
+					ss.Class("ok:" + fname)
+				}
+			}
 		}
 	}
 	rep.Sample(map[string]interface{}{"verb": "PUT", "query": "ids=List((a:1,b:2),(a:3,b:4))&fields=a,b", "body": "{\"a\":\"--BOUND\"}", "thresholds": []int{0, 1, 40, 41, 42}})
